@@ -38,7 +38,9 @@ def run(ctx):
     rc = ctx.replay_case()
     with open(cases, "w") as fo:
         if rc is not None and isinstance(rc.get("case"), dict) and "k" in rc["case"]:
-            # --replay: only the stored line
+            # --replay: only the stored line (after the FORMS line: the harness needs the names / rules)
+            for p in vlib.iter_printed(r.out_path, "FORMS"):
+                fo.write('{"k":"FORMS","c":%s}\n' % p)
             fo.write(json.dumps(rc["case"]) + "\n")
             counts[rc["case"]["k"]] = 1
         else:
@@ -68,6 +70,10 @@ def run(ctx):
                        "random strings of <= 64 characters of all UTF-8 widths; distinct_nontrivial = distinct accepted values")
     ctx.cov["decided_per_parser_and_verdict"] = ex["decided"]
     ctx.cov["findings_observed"] = ex.get("findings_observed", {})
+    ctx.cov["errors_rendered"] = ex.get("errors_rendered", 0)
+    ctx.cov["error_messages"] = ex.get("error_messages", [])
+    if sweep != "none" and not ctx.cov["errors_rendered"]:
+        raise vlib.ToolError("no error value was rendered")
     fo = ex.get("findings_observed", {}).get("counts", {})
     if any(k.endswith(":differs") for k in fo):
         vlib.log("  FINDING (don't-care in the spec, see Text.tla CastDontCare): ids do not cast from serde/sval-captured text: %s"
@@ -88,6 +94,7 @@ def run(ctx):
         "identifier start = XID_Start or `_` (module_path!() yields `_x` segments); XID classes represented by a, é / 1 / _",
         "the full-range sweeps are oracle-free (self-consistency), see coverage.rule",
         "forms and channels: one verdict per text whatever CastForm carries it, one text per typed value whatever ValueChannel takes it out (serde_json / sval_json trusted to transport a string); CastDontCare pairs (ids from serde/sval-captured text) are a reported finding, not asserted",
+        "errors: the error of every Result-returning entry point is rendered through every ErrorChannel: no panic, a non-empty message, the same message through every channel (Debug / padded Display: non-empty / contains it); the wording is not compared",
         "bounded: %s" % vlib.cfg_header(os.path.join(vlib.SPEC, cfg)),
     ]
     seen, first, rest = set(), [], []
